@@ -32,7 +32,7 @@ def run(ctx):
         prog = ctx.prog(config)
         dlmain.check_protocol(ck, prog, config, {'loop-condition': 'C04-a', 'complete': 'C04-a', 'truncate': 'C04-a',
                                                  'gate': 'C04-a', 'scan-first': 'C04-b', 'copy-first': 'C04-b',
-                                                 'reject-200': 'C04-e'})
+                                                 'reject-200': 'C04-e', 'reset-failed': 'C04-a'})
         dlmain.check_dl_errors(ck, prog, config, 'C04-a')
         dlmain.check_fd_cursor(ck, prog, config, 'C04-f')
         # the range is recomputed inside the fetch loop
